@@ -88,7 +88,7 @@ def cases(rng, tier, shard, nshards):
 
 
 # ------------------------------------------------------------------------------ record contract
-def check_record(ctx, case, value, info, rec, steps, where, first_call_is_x=True, table_rows=None):
+def check_record(ctx, case, value, info, rec, steps, where, first_call_is_x=True, table_rows=None, f_finite=True):
     value = np.asarray(value)
     est, fstep, idx = np.asarray(info.error_estimate), np.asarray(info.final_step), np.asarray(info.index)
     ctx.count('record_asserted')
@@ -118,6 +118,11 @@ def check_record(ctx, case, value, info, rec, steps, where, first_call_is_x=True
         ctx.reject('error_estimate_not_real', observed=est.ravel()[:4], where=where)
         return False
     e_real = np.real(est.ravel())
+    if not f_finite:
+        # some evaluation of f overflowed or left its domain: estimates may legitimately be inf/nan there; only the
+        # sign is still asserted
+        ctx.count('record:finiteness_of_estimate_not_asserted(f was non-finite on some step)')
+        fin = fin & np.isfinite(e_real)
     if np.any(e_real[fin] < 0) or not np.all(np.isfinite(e_real[fin])):
         ctx.reject('error_estimate_negative_or_nonfinite_for_finite_value', observed=e_real[:6],
                    detail=dict(value=value.ravel()[:6]), where=where)
@@ -173,7 +178,7 @@ def run_derivative(case, ctx):
         return
     steps = res['obs'].get('steps') if n > 0 else None
     if not check_record(ctx, case, res['value'], info, rec, steps, 'Derivative', first_call_is_x=False,
-                        table_rows=res['obs'].get('table_rows')):
+                        table_rows=res['obs'].get('table_rows'), f_finite=res['f_finite']):
         return
     if n == 0 or n > D.NMAX[method]:
         return
@@ -247,7 +252,8 @@ def run_multi(case, ctx):
     obs = D._OBS
     steps = obs.get('steps')
     val = np.asarray(val)
-    if not check_record(ctx, case, val, info, rec, steps, cls, table_rows=obs.get('table_rows')):
+    if not check_record(ctx, case, val, info, rec, steps, cls, table_rows=obs.get('table_rows'),
+                        f_finite=all(c.out_finite is not False for c in rec.calls)):
         return
     nder = 2 if cls in ('Hessdiag', 'Hessian') else 1
     jc = D.jctx()
